@@ -1,6 +1,7 @@
 (* Every pass of grouping.group, and the whole pipeline, preserves the leaf sequence (values exactly,
    types up to a re-typing to Operator) and the "cached value = text" invariant. *)
 From SqlModel Require Import Base PyStr Node Inv Passes.
+From Coq Require Import ZArith.
 
 Definition good (l l' : list node) : Prop := llsim l l' /\ (cached_ok_list l -> cached_ok_list l').
 Definition ngood (n n' : node) : Prop := nsim n n' /\ (cached_ok n -> cached_ok n').
@@ -103,19 +104,19 @@ Lemma group_loop_good p : post_good p -> forall snap idx s s',
 Proof.
   intros Hp. induction snap as [|token snap IH]; intros idx s s' H; cbn [group_loop] in H.
   - injection H as <-. apply good_refl.
-  - destruct (Nat.ltb idx (g_off s)); [apply IH in H; exact H|].
+  - destruct (Z.ltb (Z.of_nat idx - g_off s) 0); [apply IH in H; exact H|].
     destruct (is_ws token); [apply IH in H; exact H|].
     destruct (g_match p token); [|apply IH in H; exact H].
     destruct (g_prev s) as [pv|]; [|apply IH in H; exact H].
     destruct (g_pidx s) as [pidx|]; [|apply IH in H; exact H].
     destruct (g_vprev p pv && g_vnext p _); [|apply IH in H; exact H].
-    destruct (g_post p (g_live s) pidx (idx - g_off s) _) as [[[live1 from_idx] to_idx]|] eqn:E1;
+    destruct (g_post p (g_live s) pidx _ _) as [[[live1 from_idx] to_idx]|] eqn:E1;
       [|discriminate].
-    simpl in H.
+    cbn [bind] in H.
     destruct (group_tokens (g_cls p) from_idx (S to_idx) (g_extend p) live1) as [[live2 grp]|] eqn:E2;
       [|discriminate].
-    simpl in H. destruct (Nat.ltb to_idx from_idx); [discriminate|].
-    apply IH in H. simpl in H.
+    cbn [bind] in H.
+    apply IH in H. cbn [g_live] in H.
     eapply good_trans; [eapply Hp; eauto|].
     eapply good_trans; [eapply group_tokens_good; eauto | exact H].
 Qed.
